@@ -59,15 +59,12 @@ def r19_1(ctx):
     ctx.ob("R19.1", "Object::eq:quantifies-over-both-operands", both, f.loc(iters[0][1]["ln"]) if iters else f.loc(),
            "the members of both operands are enumerated" if both else
            f"only the members of operand {sorted(it_params)} are enumerated: with a repeated name on that side a name that only the other side has is never looked at, so a == b and b == a differ")
-    # each enumeration compares get() of both operands
-    cl = [prog.fns[c] for c in (prog.closures_of(f) if hasattr(prog, "closures_of") else [])] if False else [g for g in prog.with_closures(f) if g.id != f.id]
-    okc = bool(cl)
-    for g in cl:
-        gets = [(b, t) for b, t in g.calls() if callee_is(t, "get") and "Object" in t["callee"]]
-        eqs = [(b, t) for b, t in g.calls() if callee_is(t, "eq", "ne")]
-        if len(gets) < 2 or not eqs:
-            okc = False
-    ctx.ob("R19.1", "Object::eq:members-compared-by-lookup", okc, f.loc(), f"{len(cl)} enumeration closure(s), each compares get(name) of both operands")
+    # each enumeration compares get() of both operands (closure form `iter().all(|..| ..)` or plain loops)
+    bodies = prog.with_closures(f)
+    gets = sum(1 for g in bodies for b, t in g.calls() if callee_is(t, "get") and "Object" in t["callee"])
+    cmps = sum(1 for g in bodies for b, t in g.calls() if callee_is(t, "eq", "ne") and g.id != f.id or (callee_is(t, "eq", "ne") and "Option" in " ".join(t.get("rgargs") or t.get("gargs") or [])))
+    okc = bool(iters) and gets >= 2 * len(iters) and cmps >= len(iters)
+    ctx.ob("R19.1", "Object::eq:members-compared-by-lookup", okc, f.loc(), f"{len(iters)} enumeration(s), {gets} lookups by name, {cmps} comparisons: each enumeration compares get(name) of both operands")
 
 
 def r19_2(ctx):
